@@ -1,0 +1,63 @@
+//go:build verif
+
+package requestmanager
+
+import (
+	"github.com/libp2p/go-libp2p/core/peer"
+
+	"github.com/ipfs/go-graphsync"
+	gsmsg "github.com/ipfs/go-graphsync/message"
+	"github.com/ipfs/go-graphsync/requestmanager/reconciledloader"
+)
+
+// VerifEntry is a copy of what the request table holds for one request
+// (verification hook, build tag verif).
+type VerifEntry struct {
+	ID            graphsync.RequestID
+	Peer          peer.ID
+	State         graphsync.RequestState
+	TerminalError error
+	CtxDone       bool
+	LastResponse  gsmsg.GraphSyncResponse
+	HasLoader     bool
+	LoaderOpen    bool
+	LoaderQueue   []reconciledloader.VerifQueuedItem
+}
+
+type verifSnapshotMessage struct {
+	out chan []VerifEntry
+}
+
+func (m *verifSnapshotMessage) handle(rm *RequestManager) {
+	entries := make([]VerifEntry, 0, len(rm.inProgressRequestStatuses))
+	for id, ipr := range rm.inProgressRequestStatuses {
+		e := VerifEntry{ID: id, Peer: ipr.p, State: ipr.state, TerminalError: ipr.terminalError, CtxDone: ipr.ctx.Err() != nil}
+		if lr, ok := ipr.lastResponse.Load().(gsmsg.GraphSyncResponse); ok {
+			e.LastResponse = lr
+		}
+		if ipr.reconciledLoader != nil {
+			e.HasLoader = true
+			e.LoaderOpen, e.LoaderQueue = ipr.reconciledLoader.VerifRemoteQueue()
+		}
+		entries = append(entries, e)
+	}
+	select {
+	case m.out <- entries:
+	case <-rm.ctx.Done():
+	}
+}
+
+// VerifSnapshot copies the request table inside the run loop, so it returns only after every
+// message sent to the loop before this call has been handled (verification hook, build tag verif).
+func (rm *RequestManager) VerifSnapshot() []VerifEntry {
+	out := make(chan []VerifEntry, 1)
+	if err := rm.send(&verifSnapshotMessage{out}, nil); err != nil {
+		return nil
+	}
+	select {
+	case entries := <-out:
+		return entries
+	case <-rm.ctx.Done():
+		return nil
+	}
+}
